@@ -32,7 +32,14 @@ func (fr *Frame) call(st *State, c *ssa.CallCommon, in ssa.Instruction) (Value, 
 		it := c.Value.Type()
 		name := "(" + ifaceName(it) + ")." + c.Method.Name()
 		sig := c.Method.Type().(*types.Signature)
-		return fr.callByContractOrHavoc(st, name, nil, sig, append([]Value{recv}, args...), true, in)
+		v, err := fr.callByContractOrHavoc(st, name, nil, sig, append([]Value{recv}, args...), true, in)
+		if err == nil && fr.depth == 0 {
+			if fr.lastRet == nil {
+				fr.lastRet = map[string]Value{}
+			}
+			fr.lastRet["fn:"+name] = v
+		}
+		return v, err
 	}
 	fnv, err := fr.value(c.Value)
 	if err != nil {
@@ -466,6 +473,8 @@ func (fr *Frame) intrinsic(st *State, name string, fn *ssa.Function, args []Valu
 			r.declareOnce("(declare-fun err.wraps (" + sRef + " " + sRef + ") Bool)")
 			for _, w := range fr.wrappedErrors(in) {
 				r.assume(st, "(err.wraps "+ref+" "+w.Ref+")")
+				// errors.Is follows the whole chain: what the wrapped error wraps, the new one wraps too
+				r.assume(st, fmt.Sprintf("(forall ((x!w %s)) (! (=> (err.wraps %s x!w) (err.wraps %s x!w)) :pattern ((err.wraps %s x!w))))", sRef, w.Ref, ref, w.Ref))
 			}
 		}
 		return res, true, nil
